@@ -399,3 +399,20 @@ pub fn selftest(seed: u64) -> Result<u64, String> {
     }
     Ok(n)
 }
+
+/// x >= 2^(emax+1): beyond any rounding doubt an infinity
+pub fn clearly_inf(k: Kind, x: &Exact) -> bool {
+    match x {
+        Exact::Huge => true,
+        Exact::Zero | Exact::Tiny => false,
+        Exact::Rat(n, d) => cmp_scaled(n, d, &Big::from_u64(1), k.max_pow2() + k.mant_bits as i64 + 1) != Ordering::Less,
+    }
+}
+/// x <= a quarter of the smallest subnormal (or exactly zero): beyond any rounding doubt a zero
+pub fn clearly_zero(k: Kind, x: &Exact) -> bool {
+    match x {
+        Exact::Zero | Exact::Tiny => true,
+        Exact::Huge => false,
+        Exact::Rat(n, d) => cmp_scaled(n, d, &Big::from_u64(1), k.min_pow2() - 2) != Ordering::Greater,
+    }
+}
